@@ -7,7 +7,7 @@ RULE = ("correspondence: every field operation of the model in its reference and
         "(both real primes x FQ/FQ2/FQ12 + small-field instantiations); predicates: random straight-line programs (expression trees of depth "
         "<= 8 over + - * / ** neg and int mixing) evaluated in the reference class, the optimized class and an independent textbook "
         "field (proper polynomial Euclid for inverses) must agree coefficient for coefficient; sgn0 vs RFC 9380 for every sampled element")
-EXTRA_MODULES = {"Props.TieFieldsFq": "PyEcc.Tie.", "Props.TieFieldsFqp": "PyEcc.Tie.", "Props.TieFieldsMul": "PyEcc.Tie.", "Props.TieFieldsPoly": "PyEcc.Tie."}
+EXTRA_MODULES = {"Props.TieFieldsFq": "PyEcc.Tie.", "Props.TieFieldsFqp": "PyEcc.Tie.", "Props.TieFieldsMul": "PyEcc.Tie.", "Props.TieFieldsPoly": "PyEcc.Tie.", "Props.TieFieldsInv": "PyEcc.Tie."}
 HYPOTHESES = []
 NOT_YET_PROVED = []
 ASSUMPTIONS = ["optimized FQP refuses FQ-object operands that the reference class accepts: expression trees use ints and same-class operands only"]
